@@ -140,7 +140,7 @@ theorem step_canonical (g0 g : Geo) (d : Data) (hwf : g0.wf) (hinv : Inv g0 g) :
   obtain ⟨hdim, hnv, hvol, hc⟩ := hinv
   obtain ⟨hlen0, hpos, harr⟩ := hwf
   by_cases hl : d.shape.length ≠ g0.numVoxels.length
-  · have : (integrate true g d) = .error .value := by simp [integrate, hnv, hl]
+  · have : (integrate true g d) = .error .other := by simp [integrate, hnv, hl]
     refine ⟨?_, ?_⟩
     · simp only [step, this, canonical]; rw [if_pos hl]
     · simp only [step, this]; exact ⟨hdim, hnv, hvol, hc⟩
